@@ -2,84 +2,46 @@ import Fabio.Generated.C20
 import Fabio.Model.C20Spec
 import Fabio.Model.C20Log
 /-!
-Obligations over the facts regenerated from `/repo` on every run (`tools/factgen/c20.go`): the tables and
-constants the model of the access logger depends on, and the call shapes behind "UTC", "never nil",
-"read only". Core only, `decide`/`rfl`.
+OBLIGATIONS over the facts regenerated from `/repo` on every run (`tools/factgen/c20.go`): statements the proof
+chain needs and that no correspondence stream can establish by running the code. Each names the breaking
+change it is there to exclude and is stated over the weakest syntactic observation that still excludes it.
+Pins of sequential code that the streams compare with the model on every run live in `C20Pins.lean`
+(change detectors). Core only, `decide`.
 -/
 namespace Fabio.Props.C20Facts
 open Fabio Fabio.Model.C20
 set_option maxRecDepth 8000
 
-/-- The `fields` map of logger/pattern.go has exactly the names of the model's table. -/
-theorem field_table_pinned :
-    Generated.C20.fieldNames.all (fieldNames.contains ·) = true ∧
-    fieldNames.all (Generated.C20.fieldNames.contains ·) = true ∧
-    Generated.C20.fieldNames.length = fieldNames.length := by decide
-
-/-- The package comment of logger/logger.go lists `$header.<name>` and the fields of the specification. -/
+/-- The domain of the property ("every format string over the documented fields") is read from the package
+comment of logger/logger.go: it lists `$header.<name>` and exactly the fields the specification renders.
+Excludes: a field documented (and implemented) that the model, the specification and therefore every
+generator does not know. No stream reads comments. -/
 theorem documented_fields_pinned :
     Generated.C20.docFields = "$header.<name>" :: Spec.documentedFields := by decide
 
-/-- Every documented field exists; the only undocumented one is `$upstream_service`. -/
+/-- … and every documented field exists in the table (the only undocumented one is `$upstream_service`).
+Excludes: a documented field removed from / never added to the `fields` map (a valid documented format would
+be refused at start-up). -/
 theorem documented_fields_known :
     Spec.documentedFields.all (Generated.C20.fieldNames.contains ·) = true ∧
     Generated.C20.fieldNames.filter (fun n => !Spec.documentedFields.contains n) = ["$upstream_service"] := by decide
 
-/-- Both predefined formats parse (in the model) into known fields only. -/
-theorem common_format_parses :
-    (match parse Generated.C20.CommonFormat.toList with | .ok (.ok p) => p.length | _ => 0) = 9 := by decide
-theorem combined_format_parses :
-    (match parse Generated.C20.CombinedFormat.toList with | .ok (.ok p) => p.length | _ => 0) = 14 := by decide
-
-theorem month_names_pinned : Generated.C20.shortMonthNames.map String.toList = shortMonthNames := by decide
-
-/-- `atoi`: 128-byte scratch array; every pad argument in the package leaves room for digits and sign. -/
-theorem atoi_buffer_pinned : Generated.C20.atoiBufLen = 128 := by decide
-theorem atoi_pads_pinned : Generated.C20.atoiPads = [0, 2, 3, 4, 6, 9] ∧ Generated.C20.atoiPads.all (· ≤ 127) = true := by decide
-
-theorem i32toa_buffer_pinned : Generated.C20.i32toaBufLen = 11 := by decide
-
-theorem digit16_pinned : Generated.C20.digit16 = "0123456789abcdef" ∧ Generated.C20.digit16.toList = digit16 := by decide
-
-/-- `uint16base16`: template "0x0000", the digit at position 2..5 shows the 4-bit group 3..0 of `n` (most
-significant first), whichever of the equivalent mask/shift spellings the source uses. -/
-theorem uint16_digits_pinned :
-    Generated.C20.uint16Template = "0x0000" ∧
-    Generated.C20.uint16Nibbles = [(2, 3), (3, 2), (4, 1), (5, 0)] := by decide
-
-/-- `uuid.ToString`: position table, dash positions, hex table and buffer size are the model's. -/
-theorem uuid_tables_pinned :
-    Generated.C20.uuidIdx = uuidIdx ∧ Generated.C20.uuidDashes = uuidDashes ∧
-    Generated.C20.halfbyte2hexchar.map Char.ofNat = halfbyte2hexchar ∧ Generated.C20.uuidBufLen = 36 := by decide
-
-/-- D25: every location-dependent `time.Time` method (Year … Nanosecond, Date, Clock, Format, …) reached from
-the five wall-clock renderers — through helpers as well — is applied to a value that is `End.UTC()`; each of
-the five reaches at least one; no other field touches the calendar; `End` itself is otherwise only used
-through location-independent methods. -/
-theorem time_fields_use_utc :
-    Generated.C20.calendarAccessorsNotOnUTC = [] ∧
-    Generated.C20.timeFieldAccessorCalls.map (·.1) =
-      ["$time_common", "$time_rfc3339", "$time_rfc3339_ms", "$time_rfc3339_ns", "$time_rfc3339_us"] ∧
-    Generated.C20.timeFieldAccessorCalls.all (fun p => decide (1 ≤ p.2)) = true ∧
-    Generated.C20.methodsCalledOnEnd.all
-      (["Sub", "UTC", "UnixNano", "Unix", "UnixMilli", "UnixMicro", "Equal", "Before", "After", "IsZero"].contains ·) = true := by
-  decide
-
-/-- The field functions never assign through the event (logging cannot alter request or response). -/
+/-- "Logging never alters the request or the response": no field function (helpers followed) assigns through
+the event or calls a mutating method (`Set`, `Add`, `Del`, `Read`, `Close`, …) on a value reached through it.
+Excludes: e.g. `e.Request.Header.Del("Authorization")` before rendering, or draining `e.Request.Body` —
+the render stream compares only the request fields it generated. -/
 theorem renderers_read_only : Generated.C20.rendererWritesToEvent = [] := by decide
 
-/-- `pattern.write`: one newline call, skipped when the buffer is empty (the model's `write`; D26). -/
-theorem write_shape_pinned :
-    Generated.C20.writeReturnsEarlyOnEmptyBuffer = true ∧ Generated.C20.writeNewlineCalls = 1 := by decide
-
-/-- The only call site builds the event with a non-nil `Response` literal, `UpstreamAddr` = the `Host` of the
-very URL passed as `UpstreamURL` (no port for a route to `http://backend/`), and the request parameter of
-the handler. -/
+/-- The only call site hands `Log` an event whose `Response` is the address of an `http.Response` literal
+(in place or through a local assigned once from it): never nil — the renderers dereference it unchecked and the
+model's `Event` has no "nil response" case. Its `StatusCode` and `ContentLength` are fields of the very
+`ResponseWriter` that was handed to the handler (the capturing wrapper of `c20.capture`).
+Excludes: `Response` left nil on some path (a panic inside the request handler after the response was
+written), or status/size taken from somewhere other than the wrapper the stream checks. No C20 stream runs
+`ServeHTTP`. -/
 theorem call_site_pinned :
     Generated.C20.eventSiteResponseIsLiteral = true ∧
-    Generated.C20.eventSiteUpstreamAddrIsHostOfUpstreamURL = true ∧
-    Generated.C20.eventSiteRequestIsHandlerParam = true ∧
-    ["End", "Request", "Response", "Start", "UpstreamAddr"].all (Generated.C20.eventSiteKeys.contains ·) = true := by decide
+    Generated.C20.eventSiteStatusAndSizeFromHandlerWriter = true := by decide
 
 /-- which micro-step of the `Log` model an event of `Log` stands for (events are named by method / callee,
 `Pool.*` = on a package-level `sync.Pool`; helpers are followed) -/
@@ -92,16 +54,23 @@ def opOfCall : String → Option Model.C20Log.Op
   | "Pool.Put" => some .put
   | _ => none
 
-/-- `Log` performs get, render, lock, write, unlock, put in exactly the order of the model's `goodProg`
-(in particular `Pool.Put` comes after `Write`), the buffer is reset, the bytes handed to the writer are taken
-from the buffer inside the `Write` call itself (no alias taken earlier), nothing is deferred or spawned; the
-logger's own state is three fields, among them one mutex and one writer; the buffers live in one
-package-level `sync.Pool`. -/
+/-- `Log` performs get, render, lock, write, unlock, put in the order of the model's `goodProg` — in particular
+`Pool.Put` comes after `Write` — the bytes handed to the writer are taken from the buffer inside the `Write`
+call itself (no alias taken earlier), nothing is deferred or spawned. This is the hypothesis of
+`log_lines_intact_any_schedule`.
+Excludes: handing the pooled buffer back before the line is written (seeded change m4), writing outside the
+mutex, an asynchronous write: orders under concurrency that a stream can only hit by luck. -/
 theorem log_call_order_pinned :
     Generated.C20.logCalls.filterMap opOfCall = Model.C20Log.goodProg ∧
-    Generated.C20.logCalls.contains "Reset" = true ∧
-    Generated.C20.logWriteArg = "Bytes() of a buffer, evaluated in the call" ∧ Generated.C20.logUsesDeferOrGo = false ∧
-    Generated.C20.loggerStdFieldTypes = ["io.Writer", "sync.Mutex"] ∧ Generated.C20.loggerFieldCount = 3 ∧
-    Generated.C20.syncPoolVars = 1 := by decide
+    Generated.C20.logWriteArg = "Bytes() of a buffer, evaluated in the call" ∧
+    Generated.C20.logUsesDeferOrGo = false := by decide
+
+/-- The hand-written formatters (`atoi`, `hostport`, `lex`, `i32toa`, `uint16base16`, `uuid.ToString`) assign to
+nothing but their own locals: no package-level variable and no local that merely aliases a package-level
+slice or map (helpers followed). They run on many request goroutines at once; the theorems about them are
+about one call.
+Excludes: a shared scratch buffer or template (seeded change m8: `b := template` with a package-level
+`[]byte`), which is correct for every single call and wrong only under an interleaving. -/
+theorem formatters_write_only_locals : Generated.C20.formatterSharedWrites = [] := by decide
 
 end Fabio.Props.C20Facts
